@@ -76,7 +76,9 @@ def campaign(job):
                 i = rng.randrange(n)
                 th_star[i] = spec["maxs"][i] if rng.random() < 0.5 else spec["mins"][i]
             goal = zoo.fk_expected(spec, base, tool_local, th_star)
-            s = rng.choice(["near", "far", "random"])
+            s = rng.choice(["near", "far", "random", "current"])     # current: no start vector given - the solver starts from the arm's state
+            if s == "current" and path == "IKFree":
+                s = "random"
             if g in ("between-pos", "between-rot"):
                 s = "exact"
                 if g == "between-pos":
@@ -102,16 +104,21 @@ def campaign(job):
                 start = th_star.copy()
             else:
                 start = inside()
+            given = start.copy()
+            if s == "current":
+                with contextlib.redirect_stdout(io.StringIO()):
+                    arm.FK(start.copy())       # park the arm there; the call below passes no start vector
+                given = None
             restarts = rng.random() < 0.5
             random.seed(rng.randrange(1 << 30))
             pos_tol, rot_tol = TOLSETS[tolset]
             try:
                 if entry == "constrainedIK":
-                    th, ok = arm.constrainedIK(tm(goal.copy()), start.copy(), check=restarts)
+                    th, ok = arm.constrainedIK(tm(goal.copy()), given, check=restarts)
                 elif path == "constrained":
-                    th, ok = arm.IK(tm(goal.copy()), start.copy(), check=restarts)
+                    th, ok = arm.IK(tm(goal.copy()), given, check=restarts)
                 elif path == "free":
-                    th, ok = arm.IK(tm(goal.copy()), start.copy(), check=restarts, protect=True)
+                    th, ok = arm.IK(tm(goal.copy()), given, check=restarts, protect=True)
                 else:
                     th, ok = arm.IKFree(tm(goal.copy()), start.copy(), armrun_free(rng, n))
             except Exception as e:
